@@ -591,7 +591,7 @@ class Lower:
         l, r = self.expr(n.operand1), self.expr(n.operand2)
         vals = []
         for x in (l, r):
-            if isinstance(x, ast.BoolOp) and isinstance(x.op, op) and x is l:
+            if isinstance(x, ast.BoolOp) and isinstance(x.op, op):
                 vals.extend(x.values)
             else:
                 vals.append(x)
